@@ -242,3 +242,32 @@ func (w *World) resolveType(te *STypeExpr, from *types.Package) (types.Type, str
 	}
 	return base, "", nil
 }
+
+
+// resolveFieldHeap resolves heap designators Type.field / pkg.Type.field to (struct type, field index).
+func (w *World) resolveFieldHeap(te *STypeExpr, from *types.Package) (types.Type, int, bool) {
+	var stE *STypeExpr
+	var field string
+	switch {
+	case te.Field != "":
+		stE, field = &STypeExpr{Pkg: te.Pkg, Name: te.Name}, te.Field
+	case te.Pkg != "":
+		stE, field = &STypeExpr{Name: te.Pkg}, te.Name
+	default:
+		return nil, 0, false
+	}
+	stT, _, err := w.resolveType(stE, from)
+	if err != nil || stT == nil {
+		return nil, 0, false
+	}
+	st, ok := stT.Underlying().(*types.Struct)
+	if !ok {
+		return nil, 0, false
+	}
+	for i := 0; i < st.NumFields(); i++ {
+		if st.Field(i).Name() == field {
+			return stT, i, true
+		}
+	}
+	return nil, 0, false
+}
